@@ -22,6 +22,8 @@ func init() {
 			LeaseReads: x.P.Bool("leasereads"),
 			Snapshots:  x.P.Bool("snapshots"),
 			Torn:       x.P.Bool("torn"),
+			CrashBias:  x.P.Bool("crashbias"),
+			Bounce:     x.P.Bool("bounce"),
 		}
 		RandomSchedule(x, pf)
 	}
